@@ -77,7 +77,8 @@ template <typename CharT>
         // C compares narrow characters as unsigned char
         return static_cast<int>(static_cast<unsigned char>(*lhs)) - static_cast<int>(static_cast<unsigned char>(*rhs));
     } else {
-        return static_cast<int>(*lhs) - static_cast<int>(*rhs);
+        // wide characters: compare, a difference can overflow int
+        return *lhs < *rhs ? -1 : static_cast<int>(*rhs < *lhs);
     }
 }
 
@@ -96,7 +97,8 @@ template <typename CharT, typename SizeT>
                 // C compares narrow characters as unsigned char
                 return static_cast<int>(static_cast<unsigned char>(u1)) - static_cast<int>(static_cast<unsigned char>(u2));
             } else {
-                return static_cast<int>(u1 - u2);
+                // wide characters: compare, a difference can overflow int
+                return u1 < u2 ? -1 : 1;
             }
         }
         if (u1 == CharT(0)) {
